@@ -38,6 +38,7 @@ pub fn core_units(thorough: bool) -> Vec<Unit> {
         Op::Ack(S0, Newest),
         Op::AckIds(S0, vec![Stale, B], false),
         Op::AckIds(S0, vec![Unknown, A], true),
+        Op::AckIds(S0, vec![A, A], false),
         Op::Nack(S0, Newest),
         Op::Mod(S0, Oldest, 10),
         Op::Mod(S0, Newest, 30),
@@ -279,6 +280,8 @@ pub fn c10(thorough: bool) -> Vec<Unit> {
         Op::Publish(T0, 1),
         Op::Pull(S0, 10),
         Op::AckUnknown(S0),
+        Op::AckIds(S0, vec![], false),
+        Op::ModIds(S0, vec![], 10, false),
         Op::ListTopics("p", 0),
         Op::ListSubs("p", 1),
         Op::ListTopicSubs(T0, 0),
